@@ -293,12 +293,12 @@ def _r3_fixture(ck):
 
 def run(ck):
     _dead_shift_rules(ck)
-    ck.rule("R4", "a slice bound `args.N - k` is reached only where args.N >= k", floor=4)
-    ck.rule("R7", "the two operands of a guest string comparison are read under the same length bound", floor=2)
+    ck.rule("R4", "a slice bound `args.N - k` is reached only where args.N >= k", floor=3)
+    ck.rule("R7", "the two operands of a guest string comparison are read under the same length bound", floor=1)
     _symmetric_compare_rules(ck)
-    ck.rule("R5", "a NUL-terminated copy bounded by a guest length writes at most that many characters", floor=5)
+    ck.rule("R5", "a NUL-terminated copy bounded by a guest length writes at most that many characters", floor=3)
     ck.rule("R1", "the two halves of a 64-bit argument enter a sum with the same sign; results are returned low then high", floor=3)
-    ck.rule("R2", "a find/rfind result is tested against -1 before it is used in arithmetic", floor=3)
+    ck.rule("R2", "a find/rfind result is tested against -1 before it is used in arithmetic", floor=2)
     ck.rule("R3", "a counter is compared with the length before it first indexes the buffer", floor=1)
     _r3_fixture(ck)
 
@@ -483,4 +483,4 @@ def _symmetric_compare_rules(ck):
                 ck.ob("R7", "%s:compare-operands" % q, g0 == g1 and b0 == b1, m.where(c),
                       "the compared buffers are read as %s(%s) and %s(%s): different getters or bounds - one operand can be cut before the "
                       "position that decides the comparison" % (g0, ", ".join(b0), g1, ", ".join(b1)))
-    ck.ob("R7", "compare-sites-seen", n >= 2, "miasm/os_dep", "fewer guest string comparisons than on the pinned tree (%d)" % n)
+    ck.ob("R7", "compare-sites-seen", n >= 1, "miasm/os_dep", "no guest string comparison found (extractor blind)")
